@@ -260,6 +260,10 @@ func runC13Audit(t *vs.Tape, cfg map[string]string) (res vs.Result) {
 		os.WriteFile(outFile, pair.diffJSON, 0o644)
 		script = "cat " + outFile + "; exit 2"
 	}
+	runscPresent := t.Chance("runsc.present", 1, 3)
+	if runscPresent {
+		c.Inc("runs_with_simulated_runsc")
+	}
 	prov := &simnet.Provider{Family: family, T: t, C: c, FaultFree: cfg["faults"] == "off", NoTime: true}
 	var w bytes.Buffer
 	var code int
@@ -280,8 +284,16 @@ func runC13Audit(t *vs.Tape, cfg map[string]string) (res vs.Result) {
 			r1 := llm.VerifInstall(prov, nil, func(d time.Duration) { slept += d })
 			defer r1()
 			r2 := sandbox.VerifSetExec(
-				func(string) (string, error) { return "", errors.New("runsc: not installed (simulated)") },
+				func(string) (string, error) {
+					if runscPresent {
+						return "/opt/sim/bin/runsc", nil // a simulated runtime: the bundle path of sandbox.Run is exercised
+					}
+					return "", errors.New("runsc: not installed (simulated)")
+				},
 				func(ctx context.Context, name string, arg ...string) *exec.Cmd {
+					if name == "go" {
+						return exec.CommandContext(ctx, name, arg...) // toolchain detection: the real thing
+					}
 					return exec.CommandContext(ctx, "/bin/sh", "-c", script)
 				})
 			defer r2()
